@@ -563,6 +563,17 @@ def install(ex, store):
         m = re.match(r'<&?(?:blockhash::)?BlockHash as ([\w:]+?)(?:<.*>)?>::(\w+)', c)
         trait, meth = m.group(1).split('::')[-1], m.group(2)
         x = deref(a[0])
+        if trait == 'FromStr' or (trait == 'TryFrom' and meth == 'try_from'):
+            name = str_simplify(x)
+            if isinstance(name, str):
+                for p0, h0 in store.hashes.known:
+                    if h0.name == name:
+                        return ok(h0)
+                if re.match(r'^[0-9a-f]{128}$', name):
+                    h0 = HashV(1000 + len(store.hashes.known), name)
+                    store.hashes.known.append((Garbage(), h0))
+                    return ok(h0)
+            return err(Opaque('BlockHashParseError'))
         if not isinstance(x, HashV):
             return NotImplemented
         if trait == 'Clone':
